@@ -320,6 +320,7 @@ def replay(ctx, payload):
         cells = G.lib_build(dag)
         fb, fr = inp['prefill']
         for t in range(4):                       # every builder origin ...
-            for form in range(0, 6, 1 if any(o.startswith('bit:') for o in inp['ops']) else 6):     # ... and store_bit argument form
+            for form in range(0, 24, 1 if any(o.startswith('bit:') or o.startswith('b:') for o in inp['ops']) else 24):     # ... and store_bit / store_bits argument form
                 S._BIT_FORM[0] = form
+                S._BITS_FORM[0] = form
                 history(ctx, dag, cells, fb, fr, t, ops=list(inp['ops']))
